@@ -611,6 +611,20 @@ func lostOrAltered(u0, cur []rv, u *rv) string {
 	return "lost"
 }
 
+// refOddity says in which respect a backendRef carrying the stable/canary name is NOT that Service
+// (separate signature components: each is a different defect of getServiceBackendRef).
+func refOddity(ref gw.HTTPBackendRef) string {
+	switch {
+	case ref.Kind != nil && *ref.Kind != "Service":
+		return "other-kind"
+	case ref.Group != nil && *ref.Group != "":
+		return "other-group"
+	case ref.Namespace != nil && string(*ref.Namespace) != nsName:
+		return "other-namespace"
+	}
+	return "other-kind-group-or-namespace"
+}
+
 // describeRefs names the backends of an unexpected rule (signature component).
 func describeRefs(c *rv) string {
 	set := map[string]bool{}
@@ -621,9 +635,9 @@ func describeRefs(c *rv) string {
 		case isSvcRef(ref, canarySvc):
 			set["canary"] = true
 		case string(ref.Name) == canarySvc:
-			set["canary-name-but-other-kind-group-or-namespace"] = true
+			set["canary-name-but-"+refOddity(ref)] = true
 		case string(ref.Name) == stableSvc:
-			set["stable-name-but-other-kind-group-or-namespace"] = true
+			set["stable-name-but-"+refOddity(ref)] = true
 		default:
 			set["foreign"] = true
 		}
